@@ -79,7 +79,7 @@ for _n, _b in (("ArithmeticError", "Exception"), ("OverflowError", "ArithmeticEr
                ("AssertionError", "Exception"), ("RuntimeError", "Exception"), ("NotImplementedError", "RuntimeError"),
                ("RecursionError", "RuntimeError"), ("ImportError", "Exception"), ("ModuleNotFoundError", "ImportError"),
                ("OSError", "Exception"), ("EOFError", "Exception"), ("StopIteration", "Exception"),
-               ("MemoryError", "Exception"), ("struct.error", "Exception"), ("NameError", "Exception"),
+               ("MemoryError", "Exception"), ("struct.error", "Exception"), ("NameError", "Exception"), ("UnboundLocalError", "NameError"),
                ("BufferError", "Exception"), ("io.UnsupportedOperation", "OSError")):
     _exc(_n, _b)
 for _n in ("KeyboardInterrupt", "SystemExit", "GeneratorExit"):
